@@ -42,7 +42,11 @@ LEVEL.update({
 LEVEL.update({
  "C17": ("All panic-capable sites in the 44 functions reachable from Zone::deserialise / Hosts::deserialise (72 indexing sites, string slices, arithmetic assertions, unwraps) are enumerated from MIR and discharged by linear constraints over dominating length comparisons (all guard shapes: >=, ==, match guards, early-return disjunctions via CUT-REACH), range-loop / iterator-non-empty facts, or checked structural justifications; every parser loop consumes input; recursion is on a strictly shorter label slice; the loader turns errors into the failure flag.", "3/C17"),
 })
+LEVEL.update({
+ "C13": ("The writer's escape classes (all 256 octets x quoted/unquoted) and the tokeniser's character classes (4 states x 130 characters) are extracted as condition tables from the MIR and compared exhaustively: everything written literally is an ordinary token character, every special character is escaped, backslash-X never uses a digit, backslash-DDD is written and read as the same three decimal digits; RecordType Display/FromStr tables are inverse; every RDATA variant the writer prints has a parser arm with the same fields in the same order; $ORIGIN / relative-name conditions agree. Whole-zone equality is declined (and `@`/`*` labels are documented as undecided).", "3/C13"),
+})
 TECH = {
+ "C13": "custom MIR rules: TABULATE (path conditions over constants evaluated on finite domains), ARM-TABLE inversion, format-template decoding, sibling agreement of writer/parser arms",
  "C17": "custom MIR rules: panic-site enumeration + linear-constraint discharge over edge conditions (CUT-REACH for disjunctive guards), loop progress, recursion measure",
  "C03": "custom MIR rules: panic-site enumeration + discharge by linear constraints over dominating edge conditions (LEN-AI), loop progress, recursion measure, who-constructs, reader SEQ vs RFC table",
  "C04": "custom MIR rules: ARM-TABLE extraction and inversion, SEQ (ordered call sequence per match arm) reader/writer comparison against an RFC layout table, guard dominance with constant bounds",
